@@ -316,3 +316,14 @@ mut("c13_copy_mutates_source", "C13", "engine.py", "        engine = copy.deepco
 mut("c02_batch_squeezes_to_scalar_list", "C02", "defuzzifier.py", "        z = ((x * y).sum(axis=1) / y.sum(axis=1)).squeeze()\n        return z  # type: ignore",
     "        z = ((x * y).sum(axis=1) / y.sum(axis=1)).squeeze()\n        return z[:-1] if z.ndim == 1 and z.size > 2 else z  # type: ignore",
     "Centroid drops the last row of batches of 3 or more")
+mut("c02_output_matrix_row_stack", "C02", "engine.py", '''        values = tuple(output_variable.value for output_variable in self.output_variables)
+        result = np.column_stack(values) if values else np.array(values)
+        return result
+
+    @property
+    def values(self)''', '''        values = tuple(output_variable.value for output_variable in self.output_variables)
+        result = np.column_stack(values) if values else np.array(values)
+        return result[::-1] if result.shape[0] > 2 else result
+
+    @property
+    def values(self)''', "Engine.output_values returns the rows of batches of 3 or more in reverse order")
